@@ -39,12 +39,19 @@ func matchFinding(fs []Finding, prop string, o *Obligation) *Finding {
 
 // Report prints VIOLATION / KNOWN-FINDING lines, writes evidence and replay files; returns the exit code.
 func Report(opt *Options, rep *CheckReport, notCovered []string) int {
+	if err := LoadReplayers(opt.VerifDir); err != nil {
+		fmt.Println("error:", err)
+		return 2
+	}
 	findings, err := loadFindings(filepath.Join(opt.VerifDir, "known_findings.txt"))
 	if err != nil {
 		fmt.Println("error:", err)
 		return 2
 	}
 	replayDir := filepath.Join(opt.VerifDir, "replays", opt.Property)
+	if opt.NoEvidence {
+		replayDir = filepath.Join(opt.VerifDir, ".work", fmt.Sprintf("replays-%s-%d", opt.Property, os.Getpid()))
+	}
 	os.RemoveAll(replayDir)
 	exit := 0
 	if rep.Broken != "" {
@@ -114,7 +121,7 @@ func Report(opt *Options, rep *CheckReport, notCovered []string) int {
 			rec["smt"] = smt
 		}
 		input := ""
-		if rp := replayerFor(o.Name); rp != nil {
+		if rp := replayerFor(opt.Property + ":" + o.Name); rp != nil {
 			var log string
 			input, log = rp(opt, o, replayDir)
 			rec["replay_log"] = truncate(log, 8000)
@@ -195,6 +202,9 @@ func writeJSON(path string, v any) {
 }
 
 func writeEvidence(opt *Options, rep *CheckReport, notCovered []string, violations int, extra map[string]any) {
+	if opt.NoEvidence {
+		return
+	}
 	cov := map[string]any{
 		"obligations": 0, "discharged": 0,
 		"checker_cmd":              fmt.Sprintf("./bin/gocv check --property %s --tier %s  (VCs generated from /repo's working tree; each raced on z3 4.8.12 / z3-new 5.1.0 / cvc5 1.0)", opt.Property, opt.Tier),
